@@ -413,15 +413,97 @@ class Fn:
 _PINNED = None
 
 
+_PIN_FILE = None
+
+
+def pin_file():
+    global _PIN_FILE
+    if _PIN_FILE is None:
+        try:
+            with open(os.path.join(os.path.dirname(__file__), "pinned_fns.json")) as f:
+                _PIN_FILE = json.load(f)
+        except OSError:
+            _PIN_FILE = {}
+    return _PIN_FILE
+
+
 def pinned_fns():
     global _PINNED
     if _PINNED is None:
-        try:
-            with open(os.path.join(os.path.dirname(__file__), "pinned_fns.json")) as f:
-                _PINNED = set(json.load(f)["fns"])
-        except OSError:
-            _PINNED = set()
+        _PINNED = set(pin_file().get("fns", []))
     return _PINNED
+
+
+def fn_sig(fn):
+    """return type + parameter types (what a rename leaves unchanged)"""
+    return "|".join(str(x) for x in fn.locals[:fn.argc + 1])
+
+
+def apply_renames(F):
+    """A function of the reference tree that is gone, and a function that is new, in the same impl/module
+    with the same signature, each the only candidate for the other: the same function under a new name.
+    It gets its reference name back in the fact base (definition, call sites, closures), so rules
+    anchored on the name keep their anchor. Anything ambiguous is left alone (the rule then fails
+    closed on the lost anchor, as before)."""
+    sigs = pin_file().get("sigs", {})
+    if not sigs:
+        return
+    cfg = F.cfg
+    missing = [p for p, info in sigs.items() if cfg in info[1] and p not in F.fns]
+    if not missing:
+        return
+    pinned = pinned_fns()
+    newfns = [v[0] for path, v in F.fns.items() if path not in pinned and len(v) == 1 and v[0].kind in ("Fn", "AssocFn")]
+    if not newfns:
+        return
+    cand = {}
+    for p in missing:
+        cs = [n for n in newfns if scope_of(n.path) == scope_of(p) and fn_sig(n) == sigs[p][0] and n.crate == p.split("::")[0].lstrip("<")]
+        cand[p] = cs
+    claimed = collections.Counter(n.path for cs in cand.values() if len(cs) == 1 for n in cs)
+    renames = {}
+    for p, cs in cand.items():
+        if len(cs) == 1 and claimed[cs[0].path] == 1:
+            renames[cs[0].path] = p
+    if not renames:
+        return
+
+    def rn(path):
+        for old, new in renames.items():
+            if path == old:
+                return new
+            if path.startswith(old + "::{closure") or path.startswith(old + "::promoted["):
+                return new + path[len(old):]
+        return path
+    for path in list(F.fns):
+        np = rn(path)
+        if np != path:
+            v = F.fns.pop(path)
+            for fn in v:
+                F.by_name[fn.name] = [x for x in F.by_name[fn.name] if x is not fn]
+                fn.path = np
+                fn.d["path"] = np
+                F.by_name[fn.name].append(fn)
+            F.fns[np] = v
+    for fn in F.all_fns():
+        for b in fn.blocks:
+            t = b["t"]
+            if t["k"] == "call":
+                t["f"] = rn(t["f"])
+                if t.get("decl"):
+                    t["decl"] = rn(t["decl"])
+            for st in b["s"]:
+                r = st["r"]
+                if r["k"] == "agg" and r["adt"].startswith("closure:"):
+                    r["adt"] = "closure:" + rn(r["adt"][len("closure:"):])
+                for o in [r.get("a"), r.get("b")] + list(r.get("ops", [])):
+                    if isinstance(o, dict) and o.get("const") and o.get("uneval"):
+                        o["uneval"] = rn(o["uneval"])
+                        if o.get("dbg"):
+                            for old, new in renames.items():
+                                if o["dbg"].startswith(old + "::promoted["):
+                                    o["dbg"] = new + o["dbg"][len(old):]
+    F.renamed = dict(renames)
 
 
 def _renum(x, lo, zero=None, pmap=None):
@@ -724,7 +806,9 @@ class Facts:
         self._callers = None
         self._impl_fn_index = None
         self.inlined = {}
+        self.renamed = {}
         if not os.environ.get("LAYTHE_NO_INLINE"):
+            apply_renames(self)
             inline_new_helpers(self)
 
     def all_fns(self):
@@ -787,7 +871,9 @@ class Syn:
                 rel = os.path.relpath(j["file"], REPO)
                 self.files[rel] = j
         self.inlined = []
+        self.renamed = {}
         if not os.environ.get("LAYTHE_NO_INLINE"):
+            syn_apply_renames(self)
             syn_inline_new_helpers(self)
 
     def items(self, rel):
@@ -843,6 +929,84 @@ def syn_fn_keys(S):
             impl = next((re.sub(r"<.*", "", c[1]).strip() for c in cont if c[0] == "impl"), "")
             out.append("%s|%s|%s" % (rel, impl, it["name"]))
     return out
+
+
+def _syn_sig(it):
+    return "(%s)->%s" % (",".join((a.get("ty") or "").replace(" ", "") for a in it.get("args", [])), (it.get("ret") or "").replace(" ", ""))
+
+
+def syn_fn_sigs(S):
+    out = {}
+    for rel in sorted(S.files):
+        for cont, it in S.walk_items(rel):
+            if it.get("k") != "fn" or any(c[0] == "mod" and c[1] in ("test", "tests") for c in cont):
+                continue
+            impl = next((re.sub(r"<.*", "", c[1]).strip() for c in cont if c[0] == "impl"), "")
+            out["%s|%s|%s" % (rel, impl, it["name"])] = _syn_sig(it)
+    return out
+
+
+def syn_apply_renames(S):
+    """syntax-level twin of apply_renames: within one file+impl, a reference function that is gone and a new
+    one with the same parameter and return types, each the other's only candidate, are the same function;
+    it gets its reference name back (definition and `self.name(..)` / `name(..)` call sites in that crate)."""
+    sigs = pin_file().get("syn_sigs", {})
+    if not sigs:
+        return
+    pinned = set(pin_file().get("syn_fns", []))
+    S.renamed = {}
+    for rel in sorted(S.files):
+        groups = {}
+        for cont, it in S.walk_items(rel):
+            if it.get("k") != "fn" or any(c[0] == "mod" and c[1] in ("test", "tests") for c in cont):
+                continue
+            impl = next((re.sub(r"<.*", "", c[1]).strip() for c in cont if c[0] == "impl"), "")
+            groups.setdefault(impl, []).append(it)
+        pref = rel + "|"
+        for impl in set(k.split("|")[1] for k in sigs if k.startswith(pref)) | set(groups):
+            have = {it["name"]: it for it in groups.get(impl, [])}
+            missing = [k.split("|")[2] for k in sigs if k.startswith("%s|%s|" % (rel, impl)) and k.split("|")[2] not in have]
+            new = [it for n, it in have.items() if "%s|%s|%s" % (rel, impl, n) not in pinned]
+            if not missing or not new:
+                continue
+            cand = {m: [it for it in new if _syn_sig(it) == sigs["%s|%s|%s" % (rel, impl, m)]] for m in missing}
+            claimed = collections.Counter(id(cs[0]) for cs in cand.values() if len(cs) == 1)
+            for m, cs in cand.items():
+                if len(cs) == 1 and claimed[id(cs[0])] == 1:
+                    S.renamed[(rel, impl, cs[0]["name"])] = m
+    if not S.renamed:
+        return
+    by_new = {}
+    for (rel, impl, newn), old in S.renamed.items():
+        by_new.setdefault(newn, set()).add(old)
+    # only unambiguous names are rewritten at call sites
+    by_new = {n: list(o)[0] for n, o in by_new.items() if len(o) == 1}
+    for (rel, impl, newn), old in S.renamed.items():
+        for cont, it in S.walk_items(rel):
+            if it.get("k") == "fn" and it["name"] == newn:
+                i2 = next((re.sub(r"<.*", "", c[1]).strip() for c in cont if c[0] == "impl"), "")
+                if i2 == impl:
+                    it["name"] = old
+    crate_of = lambda r: r.split("/")[0]
+    crates = {crate_of(rel) for (rel, _, _) in S.renamed}
+    for rel in S.files:
+        if crate_of(rel) not in crates:
+            continue
+        for cont, it in S.walk_items(rel):
+            if it.get("k") != "fn" or not it.get("body"):
+                continue
+            for n in walk_expr(it["body"]):
+                if n.get("e") == "mcall" and n.get("m") in by_new:
+                    n["m"] = by_new[n["m"]]
+                elif n.get("e") == "call" and (n.get("f") or {}).get("e") == "path":
+                    segs = n["f"].get("p", "").split("::")
+                    if segs[-1] in by_new:
+                        segs[-1] = by_new[segs[-1]]
+                        n["f"]["p"] = "::".join(segs)
+                elif n.get("e") == "path" and n.get("p", "").split("::")[-1] in by_new and "::" in n.get("p", ""):
+                    segs = n["p"].split("::")
+                    segs[-1] = by_new[segs[-1]]
+                    n["p"] = "::".join(segs)
 
 
 def syn_inline_new_helpers(S):
